@@ -96,7 +96,7 @@ func cmdCheck(args []string) {
 		if con.Kind != "func" || con.NoBody || !hasProp(con.Props, prop) {
 			continue
 		}
-		fr, _ := P.genVC(con)
+		fr := safeGenVC(P, con)
 		frs = append(frs, fr)
 		for _, o := range fr.Obls {
 			// a clause label of the form [C07:...] (or [C07,C04:...]) restricts the obligation to those properties
@@ -117,15 +117,21 @@ func cmdCheck(args []string) {
 	// 4. classify
 	baseline := loadBaseline(*verif)
 	known := loadKnown(*verif)
-	inBase := map[string]bool{}
+	// the baseline is matched modulo ordinals (#k of a call site / safety check, @k of a loop latch): inserting or
+	// removing a statement renumbers them, and an obligation that was discharged before and now gets no answer must still
+	// be reported
+	inBaseExact := map[string]bool{}
+	inBaseNorm := map[string]bool{}
 	for _, l := range baseline[prop] {
-		inBase[l] = true
+		inBaseExact[l] = true
+		inBaseNorm[normLabel(l)] = true
 	}
+	inBase := labelSet{inBaseExact, inBaseNorm}
 	// obligations of the discharged baseline that came back without an answer are retried with little
 	// parallelism and a doubled budget before they are reported: a loaded machine must not raise an alarm
 	var retry []*Obligation
 	for _, o := range obls {
-		if !o.MustFail && o.Res.Status != "unsat" && o.Res.Status != "sat" && inBase[o.Fn+"::"+o.Label] {
+		if !o.MustFail && o.Res.Status != "unsat" && o.Res.Status != "sat" && inBase.has(o.Fn+"::"+o.Label) {
 			retry = append(retry, o)
 		}
 	}
@@ -177,7 +183,7 @@ func cmdCheck(args []string) {
 		case len(undecidedFns[o.Fn]) > 0:
 			rec.Verdict = "UNDECIDED"
 			undecided = append(undecided, fmt.Sprintf("UNDECIDED property=%s obligation=%s reason=%s", prop, full, undecidedFns[o.Fn][0]))
-		case st == "sat" || inBase[full]:
+		case st == "sat" || inBase.has(full):
 			rec.Verdict = "FAILED"
 			if st != "sat" {
 				rec.Verdict = "FAILED-no-model"
@@ -257,7 +263,7 @@ func cmdCheck(args []string) {
 		nowSet[r.Label] = true
 	}
 	missing := []string{}
-	for l := range inBase {
+	for l := range inBaseExact {
 		if !nowSet[l] {
 			missing = append(missing, l)
 		}
@@ -508,7 +514,7 @@ func writeReplay(P *Program, verif, prop string, o *Obligation) replayResult {
 			}
 		}
 		rep["counterexample_inputs"] = inputs
-		if rr := P.replayOnCode(o, model); rr != nil {
+		if rr := safeReplay(P, o, model); rr != nil {
 			rep["replay"] = rr
 			if c, ok := rr["confirmed"].(bool); ok && c {
 				confirmed = true
@@ -600,4 +606,35 @@ func runBounded(repo, verif, spec, tier string, seed int) map[string]interface{}
 		out["output"] = truncate(outS, 6000)
 	}
 	return out
+}
+
+type labelSet struct{ exact, norm map[string]bool }
+
+func (s labelSet) has(l string) bool { return s.exact[l] || s.norm[normLabel(l)] }
+
+var ordinalRe = regexp.MustCompile(`[#@]\d+`)
+
+func normLabel(l string) string { return ordinalRe.ReplaceAllString(l, "#*") }
+
+// safeReplay never lets a defect of the replay generator take the check down: a replay that cannot be produced is
+// reported as such and the violation is printed with no-failing-input-found.
+func safeReplay(P *Program, o *Obligation, model map[string]string) (rr map[string]interface{}) {
+	defer func() {
+		if r := recover(); r != nil {
+			rr = map[string]interface{}{"skipped": fmt.Sprintf("replay generator failed: %v", r)}
+		}
+	}()
+	return P.replayOnCode(o, model)
+}
+
+// safeGenVC turns a crash of the VC generator on one function (a construct it does not handle) into an UNDECIDED
+// function instead of a broken check.
+func safeGenVC(P *Program, con *Contract) (fr *FuncResult) {
+	defer func() {
+		if r := recover(); r != nil {
+			fr = &FuncResult{Key: con.Key, Contract: con, Errs: []string{fmt.Sprintf("engine failure while generating the conditions of this function: %v", r)}}
+		}
+	}()
+	fr, _ = P.genVC(con)
+	return fr
 }
